@@ -2,6 +2,7 @@ import Lean.Data.Json
 import Pypika.RenderTerm
 import Pypika.Param
 import Pypika.Ident
+import Pypika.Crit
 /-!
 # JSON → model values (driver side only; no theorem depends on this file)
 -/
